@@ -115,7 +115,7 @@ def run(prop, tier, seed, replay=None):
                         "model_behaviours_replayed": len(scenarios),
                         "evaluations": nops + consumed2, "distinct_nontrivial": len({json.dumps(s["ops"], sort_keys=True) for s in by_id.values() if len(s["ops"]) >= 5}),
                         "rule": "action sequences over DAGs a, b (existing) and c (free name) + an unknown id: start (6 parameter strings incl. quotes, =, $ and back-ticks), stop, retry, suspend, "
-                                "mark-success / mark-failed (right / wrong / missing request id and step, runs of other DAGs), save (two valid texts, invalid, empty), rename (free / taken / same / empty name), "
+                                "mark-success / mark-failed (right / wrong / missing request id and step, runs of other DAGs), save (valid texts with the same steps, with a step inserted in front and with the steps reordered; invalid; empty), mark on a run recorded under an earlier text, rename (free / taken / same / empty name), "
                                 "create, delete, unknown and missing action, interleaved with environment events that make a DAG running (a live status socket), finished, failed, canceled or crashed; "
                                 "from TLC simulation of MCApi and a weighted seeded generator; after every action the whole abstract state is read back from disk; "
                                 "evaluations = API actions judged (+ kill points of a save for C18); distinct = scenarios with at least 5 operations",
